@@ -105,6 +105,17 @@ func c01Case(tier string, i int, r *gen.Rand) (s Setting, d gen.Data, ops []gen.
 		}
 		ops = gen.Schedule(r, len(d.B), gen.FlushPositions(r, len(d.B)), style)
 		kind = "random"
+		if i%40 == 31 || i%40 == 5 {
+			// far copies with long distance extra bits and long literal codes: wide
+			// tokens, which stress the lane budgets of the SIMD token packers
+			s = accelSettings[(i/40)%8]
+			if s.Level == -2 {
+				s.Level = 1
+			}
+			d = gen.Make(r, []string{"farcopy3", "farcopy2", "farcopy", "sparsematch", "farcopy3"}[r.Intn(5)], r.Range(40000, 200000))
+			ops = gen.Schedule(r, len(d.B), gen.FlushPositions(r, len(d.B)), gen.PartitionStyles[r.Intn(4)])
+			kind = "wide-tokens"
+		}
 		if i%40 == 17 {
 			// a block whose distance symbols have chain-shaped frequencies (the
 			// distance tree must be length-limited), optionally with rare long
